@@ -66,4 +66,9 @@ CHECKS = {
   text='For each pattern the harness wraps the controller instance\'s pfasst/send_full/recv_full and checks after every stage call: one common stage of running steps, steps finish in time order, a finished step (u, f, uend on all levels, iter) never changes and is final when its end callback fires, '
        'every receive consumes the latest matching send (level, iteration, sender) exactly once, no protocol error, bounded number of stage calls; callbacks per step match S(pq)?(i(ab)+j)*E, all_to_done gives equal iteration counts, logged niter == callbacks.',
   note='Quick: all patterns for (P,K) in {(1,3),(2,2),(3,1),(2,3)} on one level and P*(K+1)<=6 on 2-3 levels; thorough up to (4,3)/(3,4). Liveness beyond the bounded call count is not claimed.'),
+ 'C15': dict(
+  technique='exhaustive enumeration of (n_steps, alpha, M) for the dense matrix identities; property-based testing of the diagonalisation sweeper against dense solves and of converged ParaDiag runs against sequential dense collocation stepping',
+  text='For n_steps 1..16 x 14 alphas x M 1..5: W*Winv = I (both orders), E_alpha as specified, W E_alpha Winv diagonal with the analytic eigenvalues, every get_G_inv_matrix factor inverts (d_l H + I), and (W(x)I)(E(x)H+I)(Winv(x)I) = blockdiag(G_l). '
+       'One update_nodes() of QDiagonalization/IMEX solves (G(x)I - dt Q(x)A) y = r for G_inv = identity / a ParaDiag factor given at construction or via set_G_inv, with and without ignore_ic. Converged controller_ParaDiag_nonMPI runs equal sequential collocation within kappa*restol; implicit linear runs must converge.',
+  note='alpha = 1: the l=0 factor is singular by mathematics and must be reported (exception or non-finite). Complex-valued dense fixtures and the shipped Dahlquist problem are used (the diagonalisation has complex eigenvalues, so real FD problems are outside what the sweeper can solve). IMEX runs that do not converge in 60 iterations are discarded and counted.'),
 }
